@@ -438,6 +438,19 @@ var _ dbft.PreBlock[H] = (*PreBlock)(nil)
 func (b *PreBlock) hash() H {
 	return blockHash(b.index, b.prev, b.ts, b.nonce, b.txHashes) ^ 0x5050505050505050
 }
+
+// preDataTxOnly selects what the pre-commit data (a decryption share in a real threshold scheme) is bound to: the whole
+// pre-block header (default), or only the height and the transaction list -- then a share made for the proposal of an
+// earlier view also fits a later proposal with the same transactions. Process-wide, set by newWorld from the scenario.
+var preDataTxOnly bool
+
+func preDataHash(index uint32, prev H, ts, nonce uint64, txs []H) H {
+	if preDataTxOnly {
+		return blockHash(index, 0, 0, 0, txs) ^ 0x5050505050505050
+	}
+	return blockHash(index, prev, ts, nonce, txs) ^ 0x5050505050505050
+}
+func (b *PreBlock) dataHash() H  { return preDataHash(b.index, b.prev, b.ts, b.nonce, b.txHashes) }
 func (b *PreBlock) Data() []byte { return b.data }
 func (b *PreBlock) SetData(key dbft.PrivateKey) error {
 	k, ok := key.(privKey)
@@ -449,11 +462,11 @@ func (b *PreBlock) SetData(key dbft.PrivateKey) error {
 		b.owner.onSetData(b)
 		nonce = b.owner.monFor(b.index).setDataCalls - 1
 	}
-	b.data = mkSigN('P', k.id, b.hash(), nonce)
+	b.data = mkSigN('P', k.id, b.dataHash(), nonce)
 	return nil
 }
 func (b *PreBlock) Verify(key dbft.PublicKey, data []byte) error {
-	return checkSig('P', key, b.hash(), data)
+	return checkSig('P', key, b.dataHash(), data)
 }
 func (b *PreBlock) Transactions() []dbft.Transaction[H]     { return b.txs }
 func (b *PreBlock) SetTransactions(t []dbft.Transaction[H]) { b.txs = t }
